@@ -151,6 +151,7 @@ def main(modname):
     ap.add_argument("--jobs", type=int, default=int(os.environ.get("VERIF_JOBS", "0")) or (os.cpu_count() or 4))
     ap.add_argument("--only", default=None, help="substring filter on job names (debugging)")
     args = ap.parse_args(sys.argv[2:])
+    os.environ["VERIF_TIER_ACTIVE"] = args.tier          # workers are spawned afterwards and inherit it
     mod = importlib.import_module(modname)
     pid = mod.META["property_id"]
     seed = int(os.environ.get("VERIF_SEED", "0") or 0)
@@ -246,6 +247,9 @@ def main(modname):
     ev.update({"property_id": pid, "tier": args.tier, "seed": seed, "wall_s": round(wall, 2),
                "violations": len(violations)})
     ev.setdefault("coverage", {})["known_findings_hit"] = sorted({k for k, _, _ in known_hits})
+    _agg = aggregate(results)[0]
+    ev["coverage"]["cross_solver"] = {"queries_re_asked_of_cvc5": _agg["cross_checked"], "agree": _agg["cross_agree"], "cvc5_unknown_or_timeout": _agg["cross_unknown"],
+                                      "not_parsed": _agg["cross_error"], "note": "the first 5 (quick) / 25 (thorough) quickly decided queries of every job are re-asked of cvc5 1.4; a definite disagreement ends the check with exit 2"}
     ev["coverage"]["inconclusive"] = len(problems)
     ev["coverage"]["counterexample_candidates"] = len(pending_cex)
     evdir = os.environ.get("VERIF_EVIDENCE_DIR") or os.path.join(ROOT, "evidence")
@@ -278,7 +282,8 @@ def main(modname):
 
 def aggregate(results):
     """Common evidence counters."""
-    agg = {"queries": 0, "solver_s": 0.0, "sat": 0, "unsat": 0, "unknown": 0, "paths": 0, "forks": 0}
+    agg = {"queries": 0, "solver_s": 0.0, "sat": 0, "unsat": 0, "unknown": 0, "paths": 0, "forks": 0,
+           "cross_checked": 0, "cross_agree": 0, "cross_unknown": 0, "cross_error": 0}
     for r in results:
         for k in agg:
             agg[k] += r.get("stats", {}).get(k, 0)
